@@ -24,7 +24,7 @@ PROPS["C03"] = dict(
 
 PROPS["C04"] = dict(
     modules=["Proofs.C04"],
-    theorems=[],
+    theorems=['Goflow.C04.xdrString_roundtrip', 'Goflow.C04.ip_roundtrip', 'Goflow.C04.unknown_record_skipped', 'Goflow.C04.unknown_flow_record'],
     generators=[dict(name="C04", quick=2000, thorough=150000)],
     harness=["impl"],
 )
@@ -38,7 +38,7 @@ PROPS["C07"] = dict(
 
 PROPS["C10"] = dict(
     modules=["Proofs.C10"],
-    theorems=[],
+    theorems=['Goflow.C10.parser_table_matches', 'Goflow.C10.guards_cover_indices', 'Goflow.C10.encap_preserves_outer', 'Goflow.C10.icmp_terminal', 'Goflow.C10.icmp_first_only', 'Goflow.C10.encap_rule', 'Goflow.C10.layer_sizes'],
     generators=[dict(name="C10", quick=150, thorough=10000)],
     harness=["impl"],
 )
@@ -59,7 +59,7 @@ PROPS["C08"] = dict(
 
 PROPS["C09"] = dict(
     modules=["Proofs.C09"],
-    theorems=[],
+    theorems=['Goflow.C09.record_eq_ref', 'Goflow.C09.records_eq_ref', 'Goflow.C09.sample_eq_ref', 'Goflow.C09.expanded_sample_eq_ref', 'Goflow.C09.non_flow_samples_yield_nothing', 'Goflow.C09.as_rules'],
     generators=[dict(name="C09", quick=400, thorough=40000)],
     harness=["impl"],
 )
